@@ -141,6 +141,23 @@ def tpName : Val → String
   | .mapOf "OrderedDict" _ => "collections.OrderedDict"
   | v => typeName v
 
+/-- the three classes of the `datetime` module that `DatetimeConverter` handles -/
+def isDtName (t : String) : Bool := t == "datetime" || t == "date" || t == "time"
+
+/-- the date/time class a value is an instance of (`isinstance`, seeing through an instance of a user
+subclass — one level, as `ACls.admits` and `builtinCtor` do: the base of a `.sub` is a plain value);
+a `datetime` is reported as "datetime" (Python tests it before `date`, of which it is a subclass) -/
+def dtKind : Val → Option String
+  | .opaque t _ => if isDtName t then some t else Option.none
+  | .sub _ (.opaque t _) => if isDtName t then some t else Option.none
+  | _ => Option.none
+
+/-- `val.isoformat()` of a date/time value (an instance of a user subclass included): the carried text -/
+def dtIso : Val → Option String
+  | .opaque t r => if isDtName t then some r else Option.none
+  | .sub _ (.opaque t r) => if isDtName t then some r else Option.none
+  | _ => Option.none
+
 /-- `data_is_sequence`: a real sequence (list, tuple; deque is a `Sequence` too), never str/bytes/bytearray. -/
 def isSeq : Val → Bool
   | .list _ | .tuple _ | .deque _ => true
